@@ -70,6 +70,38 @@ def sites(usage: str, pic: str) -> dict[str, str]:
     return out
 
 
+def makers_for_other_readers(ck: Check) -> None:
+    """JSONSchemaMaker(unpacker class) writes minLength / maxLength with THAT reader's size function: the schema made for the native
+    or the text reader states the width that reader reports for the same node (or both refuse the item)"""
+    from stingray.cobol_parser import JSONSchemaMaker, dde_sentences, reference_format, structure
+    from stingray.schema_instance import EBCDIC, SchemaMaker, Struct, TextUnpacker
+
+    items = [("9(3)", "DISPLAY"), ("S9(5)V99", "DISPLAY"), ("X(7)", "DISPLAY"), ("9(4)", "COMP"), ("9(9)", "BINARY"), ("9(12)", "COMP-4"),
+             ("S9(5)", "COMP-3"), ("9(6)", "PACKED-DECIMAL"), ("S9(4)", "COMP"), ("S9(9)", "BINARY")]
+    for cls in (EBCDIC, Struct, TextUnpacker):
+        for pic, usage in items:
+            text = f"       01  REC.\n           05  F PIC {pic} USAGE {usage}.\n"
+            inp = {"copybook": text, "maker_for": cls.__name__}
+            ck.case(("maker", cls.__name__, pic, usage), feature=f"maker-for/{cls.__name__}")
+            ck.oracle_evaluations += 1
+            tree = structure(dde_sentences(reference_format(io.StringIO(text))))[0]
+            try:
+                doc = JSONSchemaMaker(cls).jsonschema(tree)
+                declared = str(doc["properties"]["F"]["maxLength"])
+                if doc["properties"]["F"]["minLength"] != doc["properties"]["F"]["maxLength"]:
+                    declared = "min!=max"
+            except BaseException as ex:  # noqa: BLE001
+                declared = "refused:" + enum(ex)
+            try:
+                bare = SchemaMaker.from_json({"type": "string", "cobol": f"05 F PIC {pic} USAGE {usage}"})
+                own = str(cls().calcsize(bare))
+            except BaseException as ex:  # noqa: BLE001
+                own = "refused:" + enum(ex)
+            if declared != own:
+                ck.fail("maker-for-reader", f"JSONSchemaMaker({cls.__name__}) on PIC {pic} USAGE {usage} declares length {declared}; "
+                                            f"{cls.__name__}().calcsize of the same item is {own}", inp)
+
+
 def records_with_shared_names(ck: Check, n: int) -> None:
     """whole records: several groups whose items reuse the same data names (CODE OF HDR / CODE OF TRL) with different pictures and
     usages, some under OCCURS; the width of every item's location, under every reader, is its own calcsize, and the record is their sum"""
@@ -228,7 +260,7 @@ def explore(ck: Check, full_sites: bool) -> None:
                 ck.fail("value-clause-order", f"calcsize({fmt!r}) = {got}; the item's own USAGE {u} PIC {pic} is {want} bytes", {"format": fmt})
     for lit in ("'COMP'", "'COMP-3'", '"BINARY"', "'USAGE COMP-3'", "'A COMP-3 B'", "'PACKED-DECIMAL'", "COMP", "'DISPLAY'"):
         for pic, usage in (("X(12)", None), ("X(12)", "DISPLAY"), ("S9(5)", "COMP-3")):
-            fmt = f"05 F PIC {pic}" + (f" USAGE {usage}" if usage else "") + f" VALUE {lit}"
+            fmt = f"05 F PIC {pic}" + (f" USAGE {usage}" if usage else "") + (" VALUE IS " if len(lit) % 2 else " VALUE ") + lit
             got = impl_calcsize("", "", fmt=fmt)
             want = impl_calcsize(usage or "DISPLAY", pic)
             ck.case(("value-literal", fmt), feature="value-literal-is-usage-word")
@@ -237,6 +269,7 @@ def explore(ck: Check, full_sites: bool) -> None:
                 ck.fail("value-literal-taken-as-usage", f"calcsize({fmt!r}) = {got}; the item's own picture and usage give {want} bytes",
                         {"format": fmt})
     records_with_shared_names(ck, 40 if full_sites else 12)
+    makers_for_other_readers(ck)
     model = ck.driver.run(reqs)
     # Struct-bare / Text-bare were only computed where sites() ran
     keep = [i for i, v in enumerate(impl) if v != "?"]
